@@ -159,9 +159,10 @@ func resolveRun(st *resolveState, l resolveLine) {
 		name   string
 		cache  int
 		custom bool
+		nfOnly bool // custom NotFound handlers, default NotAllowed
 	}
 	compared := 0
-	for _, v := range []variant{{"plain", -1, false}, {"cache1", 1, false}, {"custom", -1, true}, {"cache3-custom", 3, true}} {
+	for _, v := range []variant{{"plain", -1, false, false}, {"cache1", 1, false, false}, {"custom", -1, true, false}, {"cache3-custom", 3, true, false}, {"custom-notfound-only", -1, false, true}} {
 		opts := []func(*rux.Router){}
 		if l.Opts.Hmna {
 			opts = append(opts, rux.HandleMethodNotAllowed)
@@ -194,6 +195,9 @@ func resolveRun(st *resolveState, l resolveLine) {
 		}
 		if !regOK {
 			continue
+		}
+		if v.nfOnly {
+			r.NotFound(func(c *rux.Context) { c.Text(404, "NF") })
 		}
 		if v.custom {
 			r.NotFound(func(c *rux.Context) { c.Text(404, "NF") })
@@ -313,7 +317,7 @@ func resolveRun(st *resolveState, l resolveLine) {
 							}
 						}
 					default:
-						if w.Code != 404 || (v.custom && body != "NF") {
+						if w.Code != 404 || ((v.custom || v.nfOnly) && body != "NF") {
 							report("response", fmt.Sprintf("%s: response %d %q, expected 404", where, w.Code, body), ext)
 						}
 					}
